@@ -33,3 +33,14 @@ int *hb_ids() {
 // processed in the call_out phase of a tick (sched_boom)
 void boom() { add(({ "boom", -1 })); error("C11 unrelated error outside any heart_beat\n"); }
 int sched_boom() { return call_out("boom", 1); }
+
+// reload_object(obs[t]): the driver switches everything off and runs create() again, which claims the id back and
+// enables the heart beat with interval v
+int reload(int who, int t, int v) {
+  object x = ob(t);
+  if (!x) { add(({ "op", who, "nop", t, v })); return 0; }
+  prep(t, v, clonep(x));
+  reload_object(x);
+  add(({ "op", who, "reload", t, v }));
+  return 1;
+}
